@@ -227,33 +227,33 @@ macro_rules! proofs {
     )*};
 }
 
-// @harness c01_s1d1_o1_1_m1 tier=quick unwind=6 block=128 mem=8 timeout=1200
-// @harness c01_s1d1_o1_1_m1_reach tier=quick unwind=6 block=128 mem=8 timeout=1200 twin
-// @harness c01_s2d1_o1_1_m1 tier=quick unwind=6 block=128 mem=9 timeout=1200
-// @harness c01_s2d1_o1_1_m1_reach tier=quick unwind=6 block=128 mem=9 timeout=1200 twin
-// @harness c01_s2d1_o2_1_m1 tier=quick unwind=6 block=128 mem=9 timeout=1200
-// @harness c01_s2d1_o1_2_m2 tier=quick unwind=6 block=128 mem=9 timeout=1200
-// @harness c01_s2d1_o2_2_m2 tier=thorough unwind=6 block=128 mem=30 timeout=3000
-// @harness c01_s1d2_o1_1_1_m1_1 tier=quick unwind=6 block=128 mem=9 timeout=1200
-// @harness c01_s2d2_o1_1_1_m1_1 tier=thorough unwind=6 block=128 mem=40 timeout=3600
+// @harness c01_s1d1_o1_1_m1 tier=quick unwind=6 block=128 mem=6 timeout=1200
+// @harness c01_s1d1_o1_1_m1_reach tier=quick unwind=6 block=128 mem=6 timeout=1200 twin
+// @harness c01_s2d1_o1_1_m1 tier=quick unwind=6 block=128 mem=7 timeout=1200
+// @harness c01_s2d1_o1_1_m1_reach tier=quick unwind=6 block=128 mem=6 timeout=1200 twin
+// @harness c01_s2d1_o2_1_m1 tier=quick unwind=6 block=128 mem=7 timeout=1200
+// @harness c01_s2d1_o1_2_m2 tier=quick unwind=6 block=128 mem=7 timeout=1200
+// @harness c01_s2d1_o2_2_m2 tier=thorough unwind=6 block=128 mem=30 timeout=3000 stretch
+// @harness c01_s1d2_o1_1_1_m1_1 tier=quick unwind=6 block=128 mem=7 timeout=1200
+// @harness c01_s2d2_o1_1_1_m1_1 tier=thorough unwind=6 block=128 mem=40 timeout=3600 stretch
 // @harness c01_s2d2_o2_1_2_m1_2 tier=thorough unwind=6 block=128 mem=44 timeout=3600 stretch
 // @harness c01_s3d1_o2_2_m2 tier=thorough unwind=7 block=128 mem=44 timeout=3600 stretch
 // @harness c01_s1d3_o1x4_m1x3 tier=thorough unwind=7 block=128 mem=40 timeout=3600 stretch
-// @harness c01_wrong_m_count tier=quick unwind=6 block=128 mem=8 timeout=1200
-// @harness c01_wrong_op_count tier=quick unwind=6 block=128 mem=8 timeout=1200
-// @harness c01_hdr_size0 tier=quick unwind=6 block=128 mem=8 timeout=1200
-// @harness c01_hdr_dim0 tier=quick unwind=6 block=128 mem=8 timeout=1200
-// @harness c01_hdr_dim_max tier=quick unwind=6 block=128 mem=8 timeout=1200
-// @harness c01_hdr_size_huge tier=quick unwind=6 block=128 mem=8 timeout=1200
-// @harness c01_hdr_size_top tier=quick unwind=6 block=128 mem=8 timeout=1200
-// @harness c01_hdr_size_max tier=quick unwind=6 block=128 mem=8 timeout=1200
-// @harness c01_hdr_size3_short_lists tier=quick unwind=6 block=128 mem=15 timeout=1200
-// @harness c01_hdr_size3_short_lists_reach tier=quick unwind=6 block=128 mem=12 timeout=1200 twin
-// @harness c01_s2d1_o3_1_m1 tier=quick unwind=6 block=128 mem=9 timeout=1200
-// @harness c01_s2d1_o1_1_m2 tier=quick unwind=6 block=128 mem=8 timeout=900
-// @harness c01_s2d1_o1_2_m1 tier=quick unwind=6 block=128 mem=8 timeout=900
-// @harness c01_hdr_dim_too_large tier=quick unwind=6 block=128 mem=8 timeout=1200
-// @harness c01_hdr_dim_too_small tier=quick unwind=6 block=128 mem=8 timeout=1200
+// @harness c01_wrong_m_count tier=quick unwind=6 block=128 mem=6 timeout=1200
+// @harness c01_wrong_op_count tier=quick unwind=6 block=128 mem=6 timeout=1200
+// @harness c01_hdr_size0 tier=quick unwind=6 block=128 mem=6 timeout=1200
+// @harness c01_hdr_dim0 tier=quick unwind=6 block=128 mem=6 timeout=1200
+// @harness c01_hdr_dim_max tier=quick unwind=6 block=128 mem=6 timeout=1200
+// @harness c01_hdr_size_huge tier=quick unwind=6 block=128 mem=6 timeout=1200
+// @harness c01_hdr_size_top tier=quick unwind=6 block=128 mem=6 timeout=1200
+// @harness c01_hdr_size_max tier=quick unwind=6 block=128 mem=6 timeout=1200
+// @harness c01_hdr_size3_short_lists tier=quick unwind=6 block=128 mem=10 timeout=1200
+// @harness c01_hdr_size3_short_lists_reach tier=quick unwind=6 block=128 mem=9 timeout=1200 twin
+// @harness c01_s2d1_o3_1_m1 tier=quick unwind=6 block=128 mem=7 timeout=1200
+// @harness c01_s2d1_o1_1_m2 tier=quick unwind=6 block=128 mem=7 timeout=1200
+// @harness c01_s2d1_o1_2_m1 tier=quick unwind=6 block=128 mem=7 timeout=1200
+// @harness c01_hdr_dim_too_large tier=quick unwind=6 block=128 mem=6 timeout=1200
+// @harness c01_hdr_dim_too_small tier=quick unwind=6 block=128 mem=6 timeout=1200
 proofs! {
     c01_s1d1_o1_1_m1 => parse_body::<0, 1, 1>(false);
     c01_s1d1_o1_1_m1_reach => parse_body::<0, 1, 1>(true);
